@@ -138,9 +138,11 @@ func (t *validatingTarget) Write(p []byte) (n int, err error) {
 		t.writtenPayload += uint64(n)
 	}
 
-	err = t.checkQuotaLimits(t.cachedHeader, t.writtenPayload)
+	if quotaErr := t.checkQuotaLimits(t.cachedHeader, t.writtenPayload); quotaErr != nil {
+		return n, quotaErr
+	}
 
-	return
+	return n, err
 }
 
 func (t *validatingTarget) Close() (oid.ID, error) {
